@@ -1,5 +1,6 @@
 //@@INCLUDE _shared/header.rs
 //@@INCLUDE _shared/diagn_opaque.rs
+//@@INCLUDE _shared/std_optgaps.rs
 pub mod util {
     use vstd::prelude::*;
     use crate::*;
